@@ -67,6 +67,46 @@ Proof.
 Qed.
 Print Assumptions C12_agrees_with_oracles_by_number.
 
+(** ... and the other way round for the sources that describe the SAME kernel release range as the tables (the machine's
+    UAPI headers and Go's frozen syscall package for amd64 / arm64; x/sys and Go's 386 / arm files also list calls newer
+    than the tables or older than the EABI): every call such a source lists is in the table, under that name and number -
+    a table that silently loses an entry keeps passing the two comparisons above. The one exception is a second name the
+    generic header defines for number 84 under an #ifdef. *)
+Definition complete_sources : list string :=
+  ["uapi_x86_64"; "uapi_i386"; "uapi_x32"; "uapi_generic64"; "gosyscall_amd64"; "gosyscall_arm64"]%string.
+Definition alternative_names : list (N * string) := [(84%N, "sync_file_range2"%string)].
+Definition cover_b (exc:list (N * string)) (t o:table) : bool :=
+  forallb (fun e => match lookup_name t (snd e) with
+                    | Some n => N.eqb n (fst e)
+                    | None => existsb (fun x => N.eqb (fst x) (fst e) && String.eqb (snd x) (snd e)) exc
+                    end) o.
+Lemma cover_spec exc t o : cover_b exc t o = true ->
+  forall n s, In (n, s) o -> lookup_name t s = Some n \/ In (n, s) exc.
+Proof.
+  unfold cover_b. rewrite forallb_forall. intros H n s Hin. specialize (H (n, s) Hin). cbn [fst snd] in H.
+  destruct (lookup_name t s) as [n'|].
+  - left. apply N.eqb_eq in H. subst. reflexivity.
+  - right. apply existsb_exists in H. destruct H as [[xn xs] [Hx Hc]]. cbn [fst snd] in Hc.
+    apply andb_true_iff in Hc. destruct Hc as [E1 E2]. apply N.eqb_eq in E1. apply String.eqb_eq in E2. subst. exact Hx.
+Qed.
+Theorem C12_tables_cover_complete_sources : forall o abi otbl, In (o, abi, otbl) oracles -> In o complete_sources ->
+  forall n s, In (n, s) otbl -> lookup_name (table_of_abi abi) s = Some n \/ In (n, s) alternative_names.
+Proof.
+  assert (H: forallb (fun e => negb (existsb (String.eqb (fst (fst e))) complete_sources)
+                               || cover_b alternative_names (table_of_abi (snd (fst e))) (snd e)) oracles = true) by (vm_compute; reflexivity).
+  rewrite forallb_forall in H. intros o abi otbl Hin Hc. specialize (H _ Hin). cbn [fst snd] in H.
+  apply orb_true_iff in H. destruct H as [H|H].
+  - exfalso. apply negb_true_iff in H. assert (E: existsb (String.eqb o) complete_sources = true).
+    { apply existsb_exists. exists o. split; [exact Hc|apply String.eqb_refl]. }
+    rewrite E in H. discriminate.
+  - apply cover_spec. exact H.
+Qed.
+Print Assumptions C12_tables_cover_complete_sources.
+(* the premise is met: all six sources are among the oracles *)
+Example C12_complete_sources_present :
+  forallb (fun c => existsb (fun e => String.eqb (fst (fst e)) c) oracles) complete_sources = true.
+Proof. vm_compute. reflexivity. Qed.
+
 (** the oracles do overlap with the tables (non-vacuity): per oracle, the number of shared names *)
 Definition shared (t o:table) : nat := List.length (filter (fun e => match lookup_name t (snd e) with Some _ => true | None => false end) o).
 Theorem C12_oracles_overlap : Forall (fun e => (250 <= shared (table_of_abi (snd (fst e))) (snd e))%nat) oracles.
